@@ -71,7 +71,8 @@ pub fn measure_loop_shape(body: &str, live: usize, n: u64, rolling: bool) -> Res
         }
     }
     let prog = if rolling {
-        format!("(let loop ((i 0) (prev #f)) (if (< i {}) (loop (+ i 1) {}) 'done))", n, body)
+        // the object made by the last iteration is kept; everything made before it is garbage
+        format!("(define last-one (let loop ((i 0) (prev #f)) (if (< i {}) (loop (+ i 1) {}) prev)))", n, body)
     } else {
         format!("(let loop ((i 0)) (if (< i {}) (begin {} (loop (+ i 1))) 'done))", n, body)
     };
@@ -121,6 +122,10 @@ pub fn measure_toplevel(live: usize, n: u64) -> Result<Usage, String> {
 fn compare(kind: &str, live: usize, n: u64, small: &Usage, large: &Usage, rep: &mut Report, id: (u64, u64)) -> bool {
     let wit = Json::obj().set("kind", kind).set("live_set", live).set("n", n).set("after_n", format!("{:?}", small)).set("after_10n", format!("{:?}", large));
     rep.max("max_heap_capacity_cells", large.heap_capacity as u64);
+    if kind.starts_with("rolling:") && large.heap_used_after_gc > small.heap_used_after_gc + 256 {
+        rep.violation(&format!("cells-kept-allocated-by-the-one-survivor-grow-with-work:{}", kind), format!("{}: the loop keeps only the object made by its last iteration, yet {} cells are in use after a collection when it ran {} iterations and {} when it ran {}", kind, small.heap_used_after_gc, n, large.heap_used_after_gc, n * 10), wit, id);
+        return false;
+    }
     // one growth step (x1.5) of slack on capacities: the phase of the last collection differs
     if large.heap_capacity as f64 > small.heap_capacity as f64 * 1.5 + 1.0 {
         rep.violation(&format!("heap-grows-with-work:{}", kind), format!("{} garbage, live set {}: heap capacity {} cells after n={} but {} after 10n", kind, live, small.heap_capacity, n, large.heap_capacity), wit, id);
@@ -185,7 +190,9 @@ pub fn run(ctx: &Ctx, rep: &mut Report) {
         rep.evaluations += 1;
         let (kind, small, large) = if *k > KINDS.len() {
             let (name, body) = ROLLING[*k - KINDS.len() - 1];
-            (name, measure_loop_shape(body, *live, *n, true), measure_loop_shape(body, *live, *n * 10, true))
+            // short loops: what is compared is the number of cells the one survivor keeps allocated, and a
+            // retained chain of 10^4 objects would already exhaust the native stack in the marker (C19)
+            (name, measure_loop_shape(body, *live, 200, true), measure_loop_shape(body, *live, 2000, true))
         } else if *k == KINDS.len() {
             // eval-based loops and top-level evaluations are slower: scale n down by 10 for them
             ("code-compiled-by-successive-top-level-evaluations", measure_toplevel(*live, *n / 10), measure_toplevel(*live, *n))
@@ -202,7 +209,7 @@ pub fn run(ctx: &Ctx, rep: &mut Report) {
                 }
                 rep.count("growth_comparisons", 1);
                 rep.see("allocation_kinds", kind);
-                if compare(kind, *live, *n, &s, &l, rep, (ctx.shard, ci as u64)) {
+                if compare(kind, *live, if kind.starts_with("rolling:") { 200 } else { *n }, &s, &l, rep, (ctx.shard, ci as u64)) {
                     rep.nontrivial(hash_str(&format!("{}|{}|{}", kind, live, n)));
                     if ci % 7 == 1 {
                         rep.sample(Json::obj().set("kind", kind).set("live_set", *live).set("n", *n).set("heap_capacity_n", s.heap_capacity).set("heap_capacity_10n", l.heap_capacity).set("host_bytes_n", s.host_bytes).set("host_bytes_10n", l.host_bytes));
